@@ -310,3 +310,139 @@ def check_mantis(ctx, rep, cfg, rule="C03.R7"):
         else:
             rep.violation(rule, cons, fsite(f), "the backward rounds of %s do not undo its forward rounds: %s" % (f.name, r), cfg=cn)
     return n
+
+
+# ------------------------------------------------------------------------------------------------ ways of a cut
+def way_summary(prog, g, memo=None, depth=0):
+    """{pointer parameter k: set of pointer parameters its final content depends on} for a loop-free helper, by a
+    may-dependency propagation (values carry the set of 'ways' - pointer parameters - they were computed from)."""
+    memo = {} if memo is None else memo
+    if g.key in memo:
+        return memo[g.key]
+    memo[g.key] = None      # recursion guard
+    if g.loops() or depth > 4:
+        return None
+    ptr = [k for k, p in enumerate(g.params) if p["type"].endswith("*")]
+    mem = {k: {k} for k in ptr}
+    col, addr = {}, {}
+
+    def pcol(op):
+        if op[0] == "i":
+            return col.get(op[1], frozenset())
+        if op[0] == "cv":
+            out = frozenset()
+            for e in op[1]:
+                out |= pcol(e)
+            return out
+        return frozenset()
+
+    def paddr(op):
+        if op[0] == "a":
+            return op[1] if op[1] in mem else None
+        if op[0] == "i":
+            return addr.get(op[1])
+        return None
+    for b in g.order:
+        for i in g.bbmap[b]["insts"]:
+            o, ops, iid = i["op"], i.get("ops") or [], i.get("id")
+            if o == "alloca":
+                addr[iid] = ("al", iid)
+                mem[("al", iid)] = set()
+            elif o in ("bitcast", "getelementptr", "addrspacecast") and i.get("type", "").endswith("*"):
+                base = i["gep"]["base"] if o == "getelementptr" else ops[0]
+                addr[iid] = paddr(base)
+                if o == "getelementptr":
+                    extra = frozenset()
+                    for (v, sc) in i["gep"].get("vars", []):
+                        extra |= pcol(v)
+                    col[iid] = extra
+            elif o == "load":
+                k = paddr(ops[0])
+                col[iid] = frozenset(mem[k]) if k is not None else frozenset()
+            elif o == "store":
+                k = paddr(ops[1])
+                if k is not None:
+                    mem[k] = set(pcol(ops[0])) | (set() if isinstance(k, int) else set())
+            elif o == "call":
+                callee = i.get("callee") or ["?", ""]
+                g2 = prog.resolve(g.unit, callee[1]) if callee[0] == "f" else None
+                allc = frozenset()
+                for x in ops:
+                    allc |= pcol(x)
+                    k = paddr(x)
+                    if k is not None:
+                        allc |= frozenset(mem[k])
+                s2 = way_summary(prog, g2, memo, depth + 1) if g2 is not None and not g2.decl else None
+                name = callee[1] if callee[0] == "f" else ""
+                if s2 is not None:
+                    new = {}
+                    for j, deps in s2.items():
+                        if j < len(ops):
+                            kj = paddr(ops[j])
+                            if kj is not None:
+                                acc = set()
+                                for d in deps:
+                                    kd = paddr(ops[d]) if d < len(ops) else None
+                                    if kd is not None:
+                                        acc |= mem[kd]
+                                new[kj] = acc
+                    mem.update(new)
+                elif name.startswith(("llvm.memcpy", "llvm.memmove")) and len(ops) >= 2:
+                    kd, ks = paddr(ops[0]), paddr(ops[1])
+                    if kd is not None:
+                        mem[kd] = set(mem[kd]) | (set(mem[ks]) if ks is not None else set())
+                elif g2 is not None and not g2.decl or callee[0] != "f":
+                    # unknown defined callee / indirect call: everything reachable may be mixed
+                    for x in ops:
+                        k = paddr(x)
+                        if k is not None:
+                            mem[k] = set(mem[k]) | set(allc)
+                col[iid] = allc
+            elif o == "phi":
+                acc = frozenset()
+                for x in ops:
+                    acc |= pcol(x)
+                col[iid] = acc
+                ks = {paddr(x) for x in ops}
+                if len(ks) == 1:
+                    addr[iid] = ks.pop()
+            else:
+                acc = frozenset()
+                for x in ops:
+                    acc |= pcol(x)
+                col[iid] = acc
+    res = {k: frozenset(mem[k]) for k in ptr}
+    memo[g.key] = res
+    return res
+
+
+def check_ways(ctx, rep, cfg, rule="C03.R8"):
+    """E10 treats a call it cannot interpret as affine (an S-box layer) as a cut and assumes that what the call
+    leaves behind pointer argument k is a function of what was behind argument k.  Decide that assumption: every
+    such helper with two or more pointer parameters (the interleaved two-/four-way vector S-boxes) computes each
+    way from that way only - `x4 ^= ((x4 >> 1) & (x3 << 2)) & m` mixes two rows of the state."""
+    from ..build import config_name
+    cn = config_name(cfg)
+    prog = ctx.prog(cfg)
+    n = 0
+    memo = {}
+    for key in sorted(prog.__dict__.get("_cut_callees", ())):
+        g = prog.funcs.get(key)
+        if g is None or g.decl:
+            continue
+        ptr = [k for k, p in enumerate(g.params) if p["type"].endswith("*")]
+        if len(ptr) < 2 or len({g.params[k]["type"] for k in ptr}) != 1:
+            continue
+        s = way_summary(prog, g, memo)
+        if s is None:
+            continue
+        n += 1
+        cons = construct(g)
+        bad = [(k, sorted(d - {k})) for k, d in sorted(s.items()) if d - {k}]
+        if bad:
+            k, others = bad[0]
+            rep.violation(rule, cons, fsite(g), "%s: what is left behind pointer parameter %d (`%s`) also depends on what was behind parameter(s) %s: the interleaved non-linear layer mixes rows / blocks that the cipher keeps apart, so this direction no longer inverts the other one" %
+                          (g.name, k, g.params[k].get("name", "?"), [("%d (`%s`)" % (o, g.params[o].get("name", "?"))) for o in others]), cfg=cn)
+        else:
+            rep.ok(rule, cons, fsite(g), "each of the %d ways of this non-linear helper is computed from that way only" % len(ptr), cfg=cn)
+    return n
